@@ -37,6 +37,7 @@ from harness import core, tables_io
 from harness import coderprops as P
 from harness import streams as S
 from harness import filters as F
+from harness import defstreams as DS
 
 PROP = 'C11'
 
@@ -572,12 +573,17 @@ def run(ctx):
     run_loops(ctx, drv, treq, ctx.rng('loops'))
     run_corpus(ctx, drv, ctx.rng('corpus'), 5 if quick else 40)
     run_split(ctx, drv, treq, ctx.rng('split'), 40 if quick else 400, 2 if quick else 8)
+    # streams with table definition messages under filters (F25): implementation-only oracle
+    DS.run(ctx, ctx.rng('defstreams'), 6 if quick else 80, cont_values=(False,))
 
 
 def replay(ctx, path):
     with open(path) as f:
         body = json.load(f)
     rep = body['replay']
+    if rep.get('defstream'):
+        DS.replay(ctx, rep)
+        return
     drv = ctx.driver
     if 'undischarged' in rep:
         print('replay: proof obligation; re-run ./check C11')
